@@ -35,6 +35,10 @@ def deep_sig_corpus(path):
     for n in (65, 1000, 20000, 200000):
         out.append({"fmt": "dbus", "sig": "v", "bytes": [1, 118, 0] * n + [1, 121, 0, 7], "pos": 0, "le": True, "nfds": 0})
         out.append({"fmt": "gvariant", "sig": "v", "bytes": [7, 0, 121] + [0, 118] * n, "pos": 0, "le": True, "nfds": 0})
+    # the listed finding C04-dynamic-value-amplification, exercised on every run: 97 one-byte elements of a 31-deep
+    # structure type (GVariant variant = child bytes, 0, signature)
+    deep = "a" + "(" * 31 + "y" + ")" * 31
+    out.append({"fmt": "gvariant", "sig": "v", "bytes": [7] * 97 + [0] + [ord(c) for c in deep], "pos": 0, "le": True, "nfds": 0})
     with open(path, "w") as f:
         for o in out:
             f.write(json.dumps(o) + "\n")
@@ -77,9 +81,13 @@ def run(pid, tier, replay):
         case = chk.path("one.json")
         json.dump(rp["replay"]["call"], open(case, "w"))
         r = subprocess.run([b, "fuzz-one", case], capture_output=True, text=True)
-        ok = r.returncode == 0 and all(x["outcome"] in ("ok", "err") for x in json.loads(r.stdout or "[]"))
+        outs = json.loads(r.stdout or "[]") if r.returncode == 0 else []
+        call = rp["replay"]["call"]
+        bound = 2097152 + 256 * (len(call.get("bytes") or []) + len(call.get("sig") or ""))
+        ok = r.returncode == 0 and all(x["outcome"] in ("ok", "err") and x.get("alloc_peak", 0) <= bound for x in outs)
         if not ok:
-            chk.report(rp["key"], "replay still fails (rc=%d)" % r.returncode, rp["replay"])
+            chk.report(rp["key"], "replay still fails (rc=%d, peak allocation %d, bound %d)" % (
+                r.returncode, max([x.get("alloc_peak", 0) for x in outs] or [0]), bound), rp["replay"])
         chk.cov.update({"evaluations": 1, "distinct_nontrivial": 2, "rule": "replay of one stored call"})
         chk.sample(rp["replay"]["call"])
         return chk.finish()
@@ -145,6 +153,11 @@ def run(pid, tier, replay):
                     chk.report(key, {"clause": "abort", "build": tag, "rc": o.get("rc")}, {"build": list(feats), "call": o["case"] | {"sig": o["sig"] or "v"}})
                 else:
                     key = "%s:%s:%s:%s" % (m["what"], d.get("fmt"), d.get("target"), (d.get("msg") or "")[:60])
+                    if m["what"] == "alloc" and d.get("alloc_peak", 0) <= 2097152 + 65536 * len(d.get("bytes") or []):
+                        # beyond the 256-bytes-per-input-byte bound but within 64 KiB per input byte: the bounded
+                        # amplification of dynamic values with deeply nested signatures (a listed finding); anything
+                        # larger keeps the plain key and is always reported
+                        key = "alloc-amplified:%s:%s" % (d.get("fmt"), d.get("target"))
                     chk.report(key, {"clause": m["what"], "build": tag, "target": d.get("target"), "msg": d.get("msg"), "alloc_peak": d.get("alloc_peak")},
                                {"build": list(feats), "call": {k: d.get(k) for k in ("fmt", "sig", "bytes", "pos", "le", "nfds")}})
             allobs += lines2[:3]
